@@ -49,6 +49,12 @@ def oracle(d):
         fails.append(Failure(f"layout:{d['layout']}", f"{text!r}: deduced {desc.current_layout}, written as {d['layout']}", **ctx))
     if desc.e_flags:
         fails.append(Failure(f"e_flags:{d['layout']}", f"{text!r}: error flags {desc.e_flags}", **ctx))
+    # being told the layout it was written in must give what deducing it gave
+    for how, forced in (("init keyword", PLSSDesc(text, layout=d["layout"])), ("config", PLSSDesc(text, config=d["layout"]))):
+        gotf = [(t.trs, t.desc) for t in forced.tracts]
+        if gotf != exp or forced.e_flags:
+            fails.append(Failure(f"forced_layout:{d['layout']}", f"{text!r}: layout {d['layout']} given by {how} yields {gotf} {forced.e_flags}, deduced parse yields {exp}", **ctx))
+            break
     # every tract carries the complete original text
     # round trip through the library's own pretty-printed rendering
     pretty = desc.pretty_desc(justify_linebreaks="")
